@@ -4,6 +4,7 @@ from __future__ import annotations
 import json
 import random
 import re
+from fractions import Fraction
 
 import z3
 
@@ -72,6 +73,59 @@ def py_blocks_float_seq(p, cse, envs):
     return out
 
 
+def _blocks_of(ekf):
+    """Every python.BasicBlock reachable from the filter object (attribute names as in python.py)."""
+    bs = [getattr(getattr(ekf, "_state_model", None), "_impl", None), getattr(ekf, "_impl_process_jacobian", None), getattr(ekf, "_impl_control_jacobian", None)]
+    for sm in getattr(ekf, "sensor_models", {}).values():
+        bs.append(getattr(sm, "_impl", None))
+    bs += list(getattr(ekf, "_impl_sensor_jacobians", {}).values())
+    return [b for b in bs if b is not None and hasattr(b, "_prefix")]
+
+
+def _tap_temporaries(ekf, sink):
+    """Wrap the compiled callables of the CSE prefix (on the object, not in the source) so that the symbolic value of
+    every temporary is recorded as it is computed."""
+    for b in _blocks_of(ekf):
+        wrapped = []
+        for name, fn in b._prefix:
+
+            def w(*a, _fn=fn, _name=str(name), **k):
+                v = _fn(*a, **k)
+                sink.append((_name, v))
+                return v
+
+            wrapped.append((name, w))
+        b._prefix = wrapped
+
+
+def outcome_float(p, cse, e):
+    import warnings
+
+    try:
+        with warnings.catch_warnings():
+            warnings.simplefilter("ignore")
+            return ("ok", py_blocks_float(p, cse, e))
+    except Exception as ex:
+        return ("raised", f"{type(ex).__name__}: {ex}")
+
+
+def event_differs(p, e):
+    """At a floating-point event point: CSE off returns values but CSE on raises (or the finite values differ)."""
+    off = outcome_float(p, False, e)
+    if off[0] != "ok":
+        return None  # the plain program itself refuses this point: nothing to compare
+    on = outcome_float(p, True, e)
+    if on[0] != "ok":
+        return f"CSE off returns values, CSE on raises {on[1]}"
+    import math
+
+    for k, b in off[1].items():
+        a = on[1][k]
+        if math.isfinite(a) and math.isfinite(b) and not approx_equal(a, b):
+            return f"{k}: cse-on {a!r} != cse-off {b!r}"
+    return None
+
+
 def py_task(p, tier, seed):
     part = Part()
     part.program(p.id)
@@ -80,12 +134,16 @@ def py_task(p, tier, seed):
     _, _, _, _, assumes = __import__("checks.c02", fromlist=["spec_pieces"]).spec_pieces(p, env)
     tmo = tier_timeout_ms(tier)
     outs = {}
+    temps = []
     env2 = pyh.second_env(env, keep=p.calibration)
     for cse in (True, False):
 
         def harness():
             with installed(), quiet():
                 ekf = pyh.build_ekf_sym(p, env, p.process_noise, p.sensor_noise, cse=cse)
+                if cse:
+                    del temps[:]
+                    _tap_temporaries(ekf, temps)
                 st = ekf.State(**pyh.sym_state_kwargs(p.state, env))
                 ct = ekf.Control(**pyh.sym_state_kwargs(p.control, env))
                 dt = SymReal(env[p.dt])
@@ -166,6 +224,30 @@ def py_task(p, tier, seed):
                 return {"impl": py_blocks_float(p, True, e)[nm], "spec": py_blocks_float(p, False, e)[nm]}
 
             prove_equal(part, PID, f"{tag}/{nm}: cse-on == cse-off", lift(on[nm]), lift(off[nm]), pa, tmo, replay=replay, key=f"{p.id}/py/{nm}", info={"kind": "py", "program": p.id, "output": nm}, all_vars=allv2)
+    # floating-point events: the solver picks, per recorded temporary, a float-exact input at which the temporary is
+    # exactly zero (definedness assumptions dropped on purpose); the real code decides on/off there (companion replay)
+    from .common import dyadic_box
+
+    seen_t, n_ev, n_hit = set(), 0, 0
+    for tname, tv in temps:
+        if not isinstance(tv, SymReal):
+            continue
+        t = lift(tv)
+        if t.get_id() in seen_t or len(seen_t) >= 24:
+            continue
+        seen_t.add(t.get_id())
+        q = solve([t == 0] + dyadic_box(allv2, lo=-2, hi=2, denom=4, exclude=()) + [env[p.dt] > 0], 3000, tag=f"{p.id}/py/event/{tname}")
+        if q.status != "sat":
+            continue
+        n_ev += 1
+        e = {n_: float(q.model.get(n_, Fraction(1, 4))) for n_ in env}
+        why = event_differs(p, e)
+        if why:
+            n_hit += 1
+            path = write_replay(PID, {"key": f"{p.id}/py/event", "info": {"kind": "py-event", "program": p.id, "temporary": tname}, "inputs": e, "what": why})
+            part.violation(f"{p.id}/py/event", f"at a point where temporary {tname} is exactly zero: {why}", path)
+            break
+    part.extra("py_zero_event_points", n_ev)
     part.sample({"program": p.id, "backend": "python", "temporaries": ntmp, "outputs": len(on)})
     return part.d
 
@@ -349,8 +431,8 @@ def model_task(p, tier, seed):
 
 def programs_for(tier, seed):
     if tier == "quick":
-        return [CP.P7(), CP.P3(), CP.P8(), CP.P15(), CP.P17(), CP.P21(), CP.P22(), CP.P23(), CP.P24(), CP.P28()]
-    return CP.all_fixed() + [CP.P21(), CP.P22(), CP.P23(), CP.P24(), CP.P28()] + CP.presence_variants(CP.P3())[1:] + [CP.random_program(seed, i) for i in range(10)]
+        return [CP.P7(), CP.P3(), CP.P8(), CP.P15(), CP.P17(), CP.P21(), CP.P22(), CP.P23(), CP.P24(), CP.P28(), CP.P32()]
+    return CP.all_fixed() + [CP.P21(), CP.P22(), CP.P23(), CP.P24(), CP.P28(), CP.P32()] + CP.presence_variants(CP.P3())[1:] + [CP.random_program(seed, i) for i in range(10)]
 
 
 def _dispatch(fn, args):
@@ -403,6 +485,11 @@ def replay(path):
         print(a, b)
         print("REPRODUCED" if bad else "not reproduced")
         return 1 if bad else 0
+    if info["kind"] == "py-event":
+        why = event_differs(p, {k: float(v) for k, v in r["inputs"].items()})
+        print(why)
+        print("REPRODUCED" if why else "not reproduced")
+        return 1 if why else 0
     if info["kind"] == "py":
         if info.get("output", "").startswith("second/"):
             e = r["inputs"]
